@@ -9,11 +9,24 @@ import sys
 import time
 
 VERIF = os.path.dirname(os.path.dirname(os.path.abspath(__file__)))
-MODULES = ["contracts.c04_periods", "contracts.engine", "contracts.c03_requests", "contracts.c06_parameters", "contracts.c16_set_input", "contracts.c13_clone", "contracts.c14_reforms", "contracts.c18_engine", "contracts.c17_storage", "contracts.c15_enums", "contracts.c10_groups", "contracts.c07_views", "contracts.c19_dump"]
+MODULES = ["contracts.c04_periods", "contracts.engine", "contracts.c03_requests", "contracts.c06_parameters", "contracts.c16_set_input", "contracts.c13_clone", "contracts.c14_reforms", "contracts.c18_engine", "contracts.c17_storage", "contracts.c15_enums", "contracts.c10_groups", "contracts.c07_views", "contracts.c19_dump", "contracts.c08_taxscales"]
 
 CAL_THEORY = "calendar (OM/DIM opaque, lemma instances; closed forms = Hinnant days-from-civil), validated against datetime"
 
 PROPS = {
+    "C08": {
+        "theories": ["tax-scale mathematics over the reals (DESIGN 3.4); numpy 1-D/2-D array algebra; sums over brackets are reduction nodes compared pointwise"],
+        "lemmas": [],
+        "validations": ["numpy"],
+        "assumptions": [
+            "floats are reals; numpy.finfo(float64).eps is taken as 0 (with the literal eps the statement's exact equalities are false by an ulp-scale term: the claim is about the mathematical scale)",
+            "thresholds strictly increasing, as many rates / amounts as thresholds, at least one bracket, at least one base",
+            "numpy contracts used: tile, .T, outer, minimum / maximum with +inf, column slices, dot as a sum over the inner index, sum(axis=1); validated against numpy on every run",
+            "threshold factors are positive",
+        ],
+        "not_decided": ["rounding options (round_base_decimals / round_decimals): numpy.round is not modelled",
+                        "NaN / inf bases, empty scales, result dtypes"],
+    },
     "C19": {
         "theories": ["file system as a ghost map path -> array; storage view of C17"],
         "lemmas": [],
